@@ -141,6 +141,17 @@ def program(shape_src):
     raise ValueError(frame)
 
 
+def else_spelling_shapes():
+    """two if / else statements in a row, the second one's else written `else :` / `else  :` / with a comment: a text search for `else:` must
+    not take the else of the first statement"""
+    out = []
+    for spelling in ("else:", "else :", "else  :", "else: # note", "else :  # note", "else\\\n:"):
+        for first_else in ("else:", "else :"):
+            out.append(["if u1:", "    x = obs(1)", first_else, "    x = obs(2)", "if u2:", "    return x", spelling, "    obs(3)", "obs(4)"])
+            out.append(["if u1:", "    x = obs(1)", first_else, "    x = obs(2)", "for a in it:", "    if u2:", "        continue", "    " + spelling, "        obs(a)", "obs(4)"])
+    return out
+
+
 def moved_code_shapes():
     """if / else (elif, nested) whose branches start or end with the same statement - what breakout_common_code_in_ifs moves in front of or behind
     the `if` - in every frame: the position the moved statement gets is computed from the line AFTER the if"""
@@ -228,7 +239,10 @@ def check_blocking(shape):
 EXPRS = ["obs(1)", "[obs(1) for a in [1, 2]]", "{obs(1) for a in [1]}", "{obs(1): 0 for a in [1]}", "{0: obs(1) for a in [1]}", "[a for a in obs([1])]", "[a for a in [1] if obs(1)]",
          "(obs(1) for a in [1])", "obs(1) if u1 else 2", "2 if obs(1) else 3", "f'{obs(1)}'", "f'{1:{obs(2)}}'", "[1, 2][::obs(1)]", "[1, 2][obs(0)]", "[1, 2][obs(0):]", "(lambda q=obs(1): q)",
          "(lambda: obs(1))", "(lambda: obs(1))()", "1 + obs(1)", "-obs(1)", "not obs(1)", "1 < obs(2)", "u1 and obs(1)", "[obs(1)]", "(obs(1),)", "{1: obs(1)}", "{obs(1): 1}", "{**{1: obs(2)}}", "[*[obs(1)]]",
-         "obs", "obs.__name__", "getobs()(1)", "(z := 3)", "len([obs(1)])", "len([1])", "str(obs(1))", "''.join([str(obs(1))])", "1", "'doc'", "u1", "u1 + 1", "[u1, u2]", "u1.real", "...", "None"]
+         "obs", "obs.__name__", "getobs()(1)",
+         # a function handed to a builtin that calls it
+         "list(map(obs, [1]))", "list(filter(obs, [1]))", "sorted([1, 2], key=obs)", "max([1, 2], key=obs)", "min([1, 2], key=obs)", "list(map(lambda q: obs(q), [1]))", "sorted([2, 1], key=lambda q: obs(q))",
+         "any(map(obs, [1]))", "sum(map(obs, [1]))", "tuple(filter(lambda q: obs(q), [1]))", "list(map(str, [1]))", "sorted([1, 2], key=abs)", "list(filter(None, [0, 1]))", "(z := 3)", "len([obs(1)])", "len([1])", "str(obs(1))", "''.join([str(obs(1))])", "1", "'doc'", "u1", "u1 + 1", "[u1, u2]", "u1.real", "...", "None"]
 STMTS = ["x = obs(1)", "x = 1", "_ = 1", "_ = obs(1)", "x: int = 1", "x: obs(1) = 1", "x += 1", "del ctx", "import os", "global g", "pass",
          "for a in [1]:\n    pass", "for a in [1]:\n    pass\nelse:\n    obs(1)", "for a in [1]:\n    obs(1)", "for a in obs([1]):\n    pass", "if u1:\n    obs(1)", "if obs(1):\n    pass", "if u1:\n    pass\nelse:\n    obs(1)",
          "while obs(0):\n    pass", "with ctx:\n    pass", "try:\n    pass\nfinally:\n    obs(1)", "def _():\n    pass", "def _(q=obs(1)):\n    pass", "@obs\ndef _():\n    pass", "class _:\n    obs(1)", "class _(getobs()):\n    pass",
@@ -442,7 +456,7 @@ def run(tier, seed):
     else:
         cons_shapes = rnd.sample(shapes, min(len(shapes), 5000))
     have = {"\n".join(x) for x in cons_shapes}
-    cons_shapes = cons_shapes + [x for x in elif_shapes() if "\n".join(x) not in have] + raising_purpose_shapes() + moved_code_shapes()
+    cons_shapes = cons_shapes + [x for x in elif_shapes() if "\n".join(x) not in have] + raising_purpose_shapes() + moved_code_shapes() + else_spelling_shapes()
     stmts = [f"{e}" for e in EXPRS] + STMTS
     ctx = mp.get_context("fork")
     with ctx.Pool(16, maxtasksperchild=300) as pool:
